@@ -3,7 +3,7 @@
 # Extracts compiler facts (MIR, ADTs, impls) of the crate in repo_dir's *current working tree*.
 set -euo pipefail
 CONFIG=${1:-default}
-OUT=${2:?out path}
+OUT=$(realpath -m "${2:?out path}")
 REPO=${3:-/repo}
 CRATE=${4:-piecewise_polynomial}
 HERE=$(cd "$(dirname "$0")/.." && pwd)
